@@ -1,5 +1,287 @@
-"""Further generators (G4..G8); each adds a file under coq/Gen and a section in the report."""
+"""Further generators; each adds a file under coq/Gen and a section in the report.
+
+G7  attribute plumbing of tables / memories / globals:
+      parse side: the argument lists of add_import_* / add_local in parse_imports / parse_tables /
+                  parse_memories / parse_globals, through the fn parameters, down to the struct literal;
+      emit side:  the wasm_encoder::{TableType, MemoryType, GlobalType} struct literals of the Emit impls.
+    -> coq/Gen/Attrs.v : gen_parse_* / gen_emit_* functions over the records of Model/ModuleM.v.
+G5  module/config.rs get_wasmparser_wasm_features -> coq/Gen/Features.v.
+"""
+import os, re
+from tt import *
+
+
+class Refuse(Exception):
+    pass
+
+
+def src_tree(repo, rel):
+    p = os.path.join(repo, rel)
+    return p, tree(tokenize(open(p).read()))
+
+
+def fn_params(t, name):
+    """parameter names of `fn name(...)` (without self)"""
+    for i, x in enumerate(t):
+        if is_id(x, 'fn') and i + 1 < len(t) and is_id(t[i + 1], name):
+            for u in t[i + 2:]:
+                if is_g(u, '()'):
+                    out = []
+                    for p in split(u.items, ','):
+                        p = [q for q in p if not is_p(q, '&') and not is_id(q, 'mut')]
+                        if not p or is_id(p[0], 'self'): continue
+                        out.append(p[0].s)
+                    return out
+    for x in t:
+        if isinstance(x, Group):
+            r = fn_params(x.items, name)
+            if r is not None: return r
+    return None
+
+
+def find_calls(items, pred):
+    """all (callee token texts, args Group) with pred(prefix tokens) true, searched recursively"""
+    out = []
+    for i, x in enumerate(items):
+        if is_g(x, '()') and i > 0 and is_id(items[i - 1]):
+            j = i - 1; pre = [items[j]]
+            while j - 2 >= 0 and is_p(items[j - 1], '.') or (j - 2 >= 0 and is_p(items[j - 1], '::')):
+                pre = [items[j - 2], items[j - 1]] + pre; j -= 2
+            if pred(text(pre).replace(' ', '')): out.append((text(pre).replace(' ', ''), x))
+        if isinstance(x, Group): out += find_calls(x.items, pred)
+    return out
+
+
+def struct_lits(items, name):
+    """all struct literals `name { f: e, g }` (recursively): list of {field: tokens}"""
+    out = []
+    for i, x in enumerate(items):
+        if is_g(x, '{}') and i > 0 and is_id(items[i - 1], name) and not (i > 1 and (is_id(items[i - 2], 'struct') or is_id(items[i - 2], 'for') or is_id(items[i - 2], 'impl'))):
+            d = {}
+            for f in split(x.items, ','):
+                if not f: continue
+                if len(f) == 1: d[f[0].s] = f
+                else: d[f[0].s] = f[2:]
+            out.append(d)
+        if isinstance(x, Group): out += struct_lits(x.items, name)
+    return out
+
+
+def fn_body(t, name):
+    return find_fn(t, name)
+
+
+# ---------------------------------------------------------------- expression translation
+WP_FIELDS = {
+    'table': {'element_type': 'wt_elem', 'table64': 'wt_64', 'initial': 'wt_init', 'maximum': 'wt_max'},
+    'memory': {'memory64': 'wm_64', 'shared': 'wm_shared', 'initial': 'wm_init', 'maximum': 'wm_max', 'page_size_log2': 'wm_page'},
+    'global': {'content_type': 'wg_ty', 'mutable': 'wg_mut', 'shared': 'wg_shared'},
+}
+IR_FIELDS = {
+    'table': {'table64': 'tb_64', 'initial': 'tb_init', 'maximum': 'tb_max', 'element_ty': 'tb_elem', 'import': 'tb_import', 'elem_segments': 'tb_segs', 'name': 'tb_name'},
+    'memory': {'shared': 'me_shared', 'memory64': 'me_64', 'initial': 'me_init', 'maximum': 'me_max', 'page_size_log2': 'me_page', 'import': 'me_import', 'data_segments': 'me_segs', 'name': 'me_name'},
+    'global': {'ty': 'gl_ty', 'mutable': 'gl_mut', 'shared': 'gl_shared', 'kind': 'gl_kind', 'name': 'gl_name'},
+}
+ENC_FIELDS = {
+    'table': {'element_type': 'wt_elem', 'table64': 'wt_64', 'minimum': 'wt_init', 'maximum': 'wt_max'},
+    'memory': {'memory64': 'wm_64', 'shared': 'wm_shared', 'minimum': 'wm_init', 'maximum': 'wm_max', 'page_size_log2': 'wm_page'},
+    'global': {'val_type': 'wg_ty', 'mutable': 'wg_mut', 'shared': 'wg_shared'},
+}
+RECORD = {'table': ('mtable', 'wtable'), 'memory': ('mmem', 'wmem'), 'global': ('mglobal', 'wglobalty')}
+IR_ORDER = {'table': ['tb_64', 'tb_init', 'tb_max', 'tb_elem', 'tb_import', 'tb_segs', 'tb_name'],
+            'memory': ['me_shared', 'me_64', 'me_init', 'me_max', 'me_page', 'me_import', 'me_segs', 'me_name'],
+            'global': ['gl_ty', 'gl_mut', 'gl_shared', 'gl_kind', 'gl_name']}
+W_ORDER = {'table': ['wt_elem', 'wt_64', 'wt_init', 'wt_max'], 'memory': ['wm_64', 'wm_shared', 'wm_init', 'wm_max', 'wm_page'], 'global': ['wg_ty', 'wg_mut', 'wg_shared']}
+
+
+def wp_expr(kind, toks, var):
+    """an argument of the parse-side call: an expression over the wasmparser type value `var`"""
+    s = text(toks).replace(' ', '')
+    for pre in (var + '.ty.', var + '.'):
+        for suf in ('', '.try_into()?'):
+            for f, c in WP_FIELDS[kind].items():
+                if s == pre + f + suf: return '(%s x)' % c
+    m = re.fullmatch(r'ValType::parse\(&%s(?:\.ty)?\.(\w+)\)\?' % re.escape(var), s)
+    if m and m.group(1) in WP_FIELDS[kind]: return '(%s x)' % WP_FIELDS[kind][m.group(1)]
+    if s.startswith('ConstExpr::eval('): return 'init'
+    if s in ('entry.module', 'entry.name'): return None
+    raise Refuse('parse-side attribute expression not understood: ' + s)
+
+
+def lit_expr(kind, toks, env):
+    """a field initialiser inside the walrus struct literal, over the fn parameters in env"""
+    s = text(toks).replace(' ', '')
+    if s in env: return env[s]
+    if s == 'id': return None
+    if s in ('Default::default()',): return '[]'
+    if s == 'None': return 'None'
+    if s in ('true', 'false'): return s
+    m = re.fullmatch(r'Some\((\w+)\)', s)
+    if m and m.group(1) in env: return '(Some %s)' % env[m.group(1)]
+    m = re.fullmatch(r'GlobalKind::Import\((\w+)\)', s)
+    if m and m.group(1) in env: return '(GK_Import %s)' % env[m.group(1)]
+    m = re.fullmatch(r'GlobalKind::Local\((\w+)\)', s)
+    if m and m.group(1) in env: return '(GK_Local %s)' % env[m.group(1)]
+    raise Refuse('struct literal field not understood: ' + s)
+
+
+def enc_expr(kind, toks, var):
+    s = text(toks).replace(' ', '')
+    for v in var:
+        m = re.fullmatch(re.escape(v) + r'\.(\w+)', s)
+        if m and m.group(1) in IR_FIELDS[kind]: return '(%s y)' % IR_FIELDS[kind][m.group(1)]
+        m = re.fullmatch(re.escape(v) + r'\.(\w+)\.to_wasmencoder_type\(\)', s)
+        if m and m.group(1) in IR_FIELDS[kind]: return '(%s y)' % IR_FIELDS[kind][m.group(1)]
+        m = re.fullmatch(r'match' + re.escape(v) + r'\.(\w+)\{RefType::Externref=>wasm_encoder::RefType::EXTERNREF,RefType::Funcref=>wasm_encoder::RefType::FUNCREF,?\}', s)
+        if m and m.group(1) in IR_FIELDS[kind]: return '(%s y)' % IR_FIELDS[kind][m.group(1)]
+        m = re.fullmatch(r'match' + re.escape(v) + r'\.(\w+)\{RefType::Externref=>wasm_encoder::RefType::FUNCREF,RefType::Funcref=>wasm_encoder::RefType::EXTERNREF,?\}', s)
+        if m and m.group(1) in IR_FIELDS[kind]: return '(match %s y with RT_Externref => RT_Funcref | RT_Funcref => RT_Externref end)' % IR_FIELDS[kind][m.group(1)]
+    if s in ('true', 'false', 'None'): return s
+    raise Refuse('emit-side attribute expression not understood: ' + s)
+
+
+def gen_attrs(repo, out, report):
+    imp_p, imp_t = src_tree(repo, 'src/module/imports.rs')
+    files = {'table': src_tree(repo, 'src/module/tables.rs'), 'memory': src_tree(repo, 'src/module/memories.rs'), 'global': src_tree(repo, 'src/module/globals.rs')}
+    plural = {'table': 'tables', 'memory': 'memories', 'global': 'globals'}
+    wpvar = {'table': 't', 'memory': 'm', 'global': 'g'}
+    typeref = {'table': 'Table', 'memory': 'Memory', 'global': 'Global'}
+    struct = {'table': 'Table', 'memory': 'Memory', 'global': 'Global'}
+    enc_ty = {'table': 'TableType', 'memory': 'MemoryType', 'global': 'GlobalType'}
+    o = ['(* GENERATED by /verif/translator/gen_more.py (G7) from src/module/{imports,tables,memories,globals}.rs -- do not edit *)',
+         'From Coq Require Import List NArith Bool. Import ListNotations.', 'From WV Require Import Gen.Ops Model.ModuleM.', 'Open Scope N_scope.']
+    rep = {}
+    for kind in ('table', 'memory', 'global'):
+        p, t = files[kind]
+        mrec, wrec = RECORD[kind]
+
+        def plumb(outer_args, outer_fn_tree, outer_fn, inner_recv, inner_fn, var, extra_env):
+            """outer call args -> params of outer_fn -> inner call args -> params of inner_fn -> struct literal"""
+            env = dict(extra_env)
+            if outer_fn is not None:
+                ps = fn_params(outer_fn_tree, outer_fn)
+                if ps is None: raise Refuse('fn %s not found' % outer_fn)
+                if len(ps) != len(outer_args): raise Refuse('%s: %d arguments for %d parameters' % (outer_fn, len(outer_args), len(ps)))
+                for pn, a in zip(ps, outer_args):
+                    e = wp_expr(kind, a, var)
+                    if e is not None: env[pn] = e
+                body = fn_body(outer_fn_tree, outer_fn)
+                calls = find_calls(body.items, lambda s: s == 'self.%s.%s' % (plural[kind], inner_fn))
+                if len(calls) != 1: raise Refuse('%s: expected one call to self.%s.%s' % (outer_fn, plural[kind], inner_fn))
+                inner_args = split(calls[0][1].items, ',')
+                env2 = {}
+                ps2 = fn_params(t, inner_fn)
+                if ps2 is None or len(ps2) != len(inner_args): raise Refuse('%s.%s: arity mismatch' % (plural[kind], inner_fn))
+                for pn, a in zip(ps2, inner_args):
+                    s = text(a).replace(' ', '')
+                    if s in env: env2[pn] = env[s]
+                    else: raise Refuse('%s: argument %s of %s is not a parameter' % (outer_fn, s, inner_fn))
+            else:
+                ps2 = fn_params(t, inner_fn)
+                if ps2 is None or len(ps2) != len(outer_args): raise Refuse('%s.%s: arity mismatch' % (plural[kind], inner_fn))
+                env2 = dict(extra_env)
+                for pn, a in zip(ps2, outer_args):
+                    e = wp_expr(kind, a, var)
+                    if e is not None: env2[pn] = e
+            lits = struct_lits(fn_body(t, inner_fn).items, struct[kind])
+            if len(lits) != 1: raise Refuse('%s.%s: expected one %s literal' % (plural[kind], inner_fn, struct[kind]))
+            fields = {}
+            for f, toks in lits[0].items():
+                if f == 'id': continue
+                if f not in IR_FIELDS[kind]: raise Refuse('%s literal has unknown field %s' % (struct[kind], f))
+                fields[IR_FIELDS[kind][f]] = lit_expr(kind, toks, env2)
+            missing = [f for f in IR_ORDER[kind] if f not in fields]
+            if missing: raise Refuse('%s literal lacks %s' % (struct[kind], missing))
+            return '{| ' + '; '.join('%s := %s' % (f, fields[f]) for f in IR_ORDER[kind]) + ' |}'
+
+        # ---- parse: imported
+        pi = fn_body(imp_t, 'parse_imports')
+        calls = find_calls(pi.items, lambda s: s == 'self.add_import_' + kind)
+        if len(calls) != 1: raise Refuse('parse_imports: expected one call to add_import_' + kind)
+        args = split(calls[0][1].items, ',')
+        imp_env = {'import': 'imp', 'import_id': 'imp'}
+        # the import id is allocated inside add_import_<kind>: `let import = self.imports.arena.next_id();`
+        rec_i = plumb(args, imp_t, 'add_import_' + kind, plural[kind], 'add_import', wpvar[kind], imp_env)
+        o.append('Definition gen_parse_%s_import (x : %s) (imp : N) : %s := %s.' % (kind, wrec, mrec, rec_i))
+        # ---- parse: local
+        pl = fn_body(t, 'parse_' + plural[kind])
+        calls = find_calls(pl.items, lambda s: s == 'self.%s.add_local' % plural[kind])
+        if len(calls) != 1: raise Refuse('parse_%s: expected one call to add_local' % plural[kind])
+        args = split(calls[0][1].items, ',')
+        var = {'table': 't', 'memory': 'm', 'global': 'g'}[kind]
+        rec_l = plumb(args, None, None, plural[kind], 'add_local', var, {})
+        if kind == 'global':
+            o.append('Definition gen_parse_global_local (x : wglobalty) (init : mconst) : mglobal := %s.' % rec_l)
+        else:
+            o.append('Definition gen_parse_%s_local (x : %s) : %s := %s.' % (kind, wrec, mrec, rec_l))
+        # ---- emit: imported (imports.rs) and local (<kind>s.rs)
+        def enc(lit, vars_):
+            fields = {}
+            for f, toks in lit.items():
+                if f == 'shared' and kind == 'table':
+                    if text(toks) != 'false': raise Refuse('TableType.shared is not the literal false')
+                    continue
+                if f not in ENC_FIELDS[kind]: raise Refuse('%s literal has unknown field %s' % (enc_ty[kind], f))
+                fields[ENC_FIELDS[kind][f]] = enc_expr(kind, toks, vars_)
+            missing = [f for f in W_ORDER[kind] if f not in fields]
+            if missing: raise Refuse('%s literal lacks %s' % (enc_ty[kind], missing))
+            return '{| ' + '; '.join('%s := %s' % (f, fields[f]) for f in W_ORDER[kind]) + ' |}'
+        li = struct_lits(imp_t, enc_ty[kind])
+        if len(li) != 1: raise Refuse('imports.rs: expected one wasm_encoder::%s literal' % enc_ty[kind])
+        o.append('Definition gen_emit_%s_import (y : %s) : %s := %s.' % (kind, mrec, wrec, enc(li[0], ['table', 'mem', 'g', 'memory', 'global'])))
+        ll = struct_lits(t, enc_ty[kind])
+        if len(ll) != 1: raise Refuse('%s.rs: expected one wasm_encoder::%s literal' % (plural[kind], enc_ty[kind]))
+        o.append('Definition gen_emit_%s_local (y : %s) : %s := %s.' % (kind, mrec, wrec, enc(ll[0], ['table', 'memory', 'global', 'mem', 'g'])))
+        rep[kind] = 'ok'
+    content = '\n'.join(o) + '\n'
+    path = os.path.join(out, 'Attrs.v')
+    try:
+        if open(path).read() == content: return rep
+    except OSError: pass
+    open(path, 'w').write(content)
+    return rep
+
+
+def gen_features(repo, out, report):
+    p, t = src_tree(repo, 'src/module/config.rs')
+    body = fn_body(t, 'get_wasmparser_wasm_features')
+    if body is None: raise Refuse('get_wasmparser_wasm_features not found')
+    always, unstable = [], []
+    def collect(items, dst):
+        for i, x in enumerate(items):
+            if is_id(x, 'features') and i + 3 < len(items) and is_p(items[i + 1], '.') and is_id(items[i + 2], 'insert') and is_g(items[i + 3], '()'):
+                s = text(items[i + 3].items).replace(' ', '')
+                m = re.fullmatch(r'WasmFeatures::(\w+)', s)
+                if not m: raise Refuse('feature expression not understood: ' + s)
+                dst.append(m.group(1))
+    collect(body.items, always)
+    # the single `if !self.only_stable_features { ... }`
+    ifs = [i for i, x in enumerate(body.items) if is_id(x, 'if')]
+    if len(ifs) != 1: raise Refuse('get_wasmparser_wasm_features: expected exactly one `if`')
+    i = ifs[0]; cond = []
+    j = i + 1
+    while not is_g(body.items[j], '{}'): cond.append(body.items[j]); j += 1
+    if text(cond).replace(' ', '') != '!self.only_stable_features': raise Refuse('feature guard not understood: ' + text(cond))
+    collect(body.items[j].items, unstable)
+    if not any(is_id(x, 'WasmFeatures') for x in body.items[:6]) and 'empty' not in text(body.items[:12]): raise Refuse('feature set does not start from WasmFeatures::empty()')
+    names = sorted(set(always + unstable))
+    o = ['(* GENERATED by /verif/translator/gen_more.py (G5) from src/module/config.rs -- do not edit *)', 'From Coq Require Import List. Import ListNotations.',
+         'Inductive feature := ' + ' | '.join('F_' + n for n in names) + '.',
+         'Definition features_stable : list feature := [%s].' % '; '.join('F_' + n for n in always),
+         'Definition features_default : list feature := features_stable ++ [%s].' % '; '.join('F_' + n for n in unstable)]
+    content = '\n'.join(o) + '\n'
+    path = os.path.join(out, 'Features.v')
+    try:
+        if open(path).read() == content: return {'stable': always, 'unstable_only': unstable}
+    except OSError: pass
+    open(path, 'w').write(content)
+    return {'stable': always, 'unstable_only': unstable}
 
 
 def run(repo, out, report, g):
-    pass
+    try:
+        report['attrs'] = gen_attrs(repo, out, report)
+        report['features'] = gen_features(repo, out, report)
+    except Refuse as e:
+        import gen
+        raise gen.Refuse(str(e))
